@@ -379,6 +379,12 @@ class C21(Mode):
                             a = it.acct
                             obs.append(['attr', 'Item', it._pkval_, 'acct', ('E', a._pkval_)])
                             rec_attr(a, 'name')
+                    elif op == 'flush':
+                        flush()
+                    elif op == 'commit':
+                        # a mid-session commit ends the transaction (writers may get in again), not the session:
+                        # what was observed so far must still read the same or fail loudly
+                        commit()
                     elif op == 'own_write':
                         o = A(st[1])
                         if o is not None:
